@@ -12,8 +12,9 @@
 (*   NewtonIter   one simplified-Newton iteration (three evaluations);     *)
 (*                outcomes: continue | converged | diverging (theta >=     *)
 (*                0.99) | slow (dyth >= 1: step shrunk, counted as a       *)
-(*                rejection, and the code FALLS THROUGH to the error test  *)
-(*                of the attempt it has just abandoned) | exhausted        *)
+(*                rejection, the attempt retried - until repair 29daa34    *)
+(*                the code fell through to the error test of the attempt   *)
+(*                it had just abandoned) | exhausted                       *)
 (*   ErrFirst     error estimate (one more back-substitution), outcomes:   *)
 (*                accept | refine (first or rejected step) | reject        *)
 (*   Refine       the refined estimate (one evaluation at x)               *)
@@ -28,7 +29,8 @@
 (*    Jacobian that was kept (call_jac = FALSE) is NOT refreshed, and a    *)
 (*    fresh one (call_jac = TRUE) is evaluated again at the same point;    *)
 (*  - a singular factorisation `continue`s before steps.total is counted;  *)
-(*  - the `slow` outcome falls through to the error test (see above).      *)
+(*  - (until repair 29daa34: the `slow` outcome fell through to the error  *)
+(*    test; the model followed the code in both versions).                 *)
 (*                                                                         *)
 (* What the model cannot compute (norms, convergence rates, step ratios)   *)
 (* is an oracle, passed to the actions as parameters: the bounded model    *)
@@ -140,11 +142,12 @@ NewtonIter(out, th, g) ==
        /\ theta' = IF rated /\ out # "div" THEN th ELSE theta
        /\ CASE out = "div"  -> rated /\ Fail(g, TRUE) /\ UNCHANGED rej
             [] out = "slow" -> /\ rated
-                               /\ (Metric => (g < h /\ g > 0))
-                               /\ h' = IF Metric THEN g ELSE h
+                               /\ (Metric => (g < h /\ g > 0)) /\ g >= 0
+                               /\ h' = g
                                /\ rej' = rej + 1 /\ last' = FALSE
-                               /\ pc' = "err"                          \* falls through to the error test
-                               /\ UNCHANGED <<reject, callDecomp, sing, status>>
+                               /\ reject' = TRUE /\ callDecomp' = TRUE
+                               /\ pc' = "top"                          \* the attempt is abandoned and retried (repair 29daa34)
+                               /\ UNCHANGED <<sing, status>>
             [] out = "conv" -> pc' = "err" /\ UNCHANGED <<h, reject, last, callDecomp, sing, rej, status>>
             [] out = "cont" -> IF it' >= MaxNewton
                                THEN Fail(g, TRUE) /\ UNCHANGED rej     \* the next pass of the loop gives up
@@ -239,7 +242,7 @@ R_Budget  == /\ (P.nmax > 0 => total <= P.nmax + 1)
 R_Counts  == /\ (pc \in {"top", "dec", "newton", "err", "refine", "accept", "mod"} => ncb = acc + 1)
              /\ (pc = "cb" => ncb = acc)
              /\ total >= acc
-             /\ rej <= 2 * total                        \* an attempt can be counted twice: `slow` and then the error test
+             /\ rej <= total                            \* every attempt is counted at most once as rejected (since repair 29daa34)
 \* a Jacobian flagged for (re)evaluation is the one in use when the iteration starts
 R_JacFresh == (pc = "newton" /\ callJac) => jacAt = x
 \* the factorisation is never skipped while a rejection is pending
